@@ -46,6 +46,9 @@ CHECKS = {
  "C08": dict(level="exploration", enum=True, ref="7/C08", technique="bounded exhaustive run-time contract checking: the CNF built by the real rect.solve is captured and ALL its models (projected on the box/cell variables) are compared with a brute-force enumeration of the k-box single-trunk orthogons; cost-bound behaviour of solve checked against the same enumeration",
    text="The claim is about the whole model set of a SAT formula built by string-keyed imperative code for every grid; no contract within reach expresses it for unbounded grids, so it is decided by complete enumeration on small lattices (uniform / non-uniform, origin 0 or not, integer / fractional / decimal-step sizes, up to 4x3 and 5x2 cells, k = 1..3, occupancies over {0, 0.5, 1}). Nothing is proved beyond the bound.",
    note="pysat trusted; the greedy helper (Windows DLL) is not involved: rect.solve is called with a plain carrier object; lattices only (allocation cells forming a full grid)"),
+ "C15": dict(level="exploration", enum=True, ref="7/C15", technique="bounded exhaustive run-time contract checking: every 0/1 grid up to 4x4 (4x5/5x4 thorough) against a brute-force decomposability oracle and a partition/abutment checker; every hole-free lattice polygon up to 4x4 through strop_decomposition and create_stog; deductive leaf contracts for Interval / StropRectangle",
+   text="Existence and validity of a decomposition are combinatorial statements over grids; they are enumerated completely up to the bound (74 322 grids in quick; about 2.1 million in thorough) plus random 6x6 grids. Only the loop-free integer leaves (Interval.intersection / length, StropRectangle.area) are proved for all integers.",
+   note="bounded in grid size; numpy arrays as vertices not exercised (Point lists only); create_stog is the real one (C06)"),
 }
 
 PENDING = {}
